@@ -87,6 +87,10 @@ def tg_op_cases(draw):
             if draw(st.integers(0, 2)) == 0:
                 t["entries"] = []  # entry-less tiers with a span of their own
                 t["maxT"] = t["maxT"] + draw(st.sampled_from([0.0, 1.0]))
+                if draw(st.booleans()):
+                    t["type"] = spec["tiers"][0]["type"]  # of the first tier's kind and longer than it
+                    t["maxT"] = max(t["maxT"], spec["tiers"][0]["maxT"] + 0.5)
+        spec["maxT"] = max([spec["maxT"]] + [t["maxT"] for t in spec["tiers"]])
     elif draw(st.integers(0, 4)) == 0:
         # one tier ends one unit in the last place before the textgrid does (0.3 in a textgrid ending at 0.1 + 0.2)
         t = spec["tiers"][draw(st.integers(0, len(spec["tiers"]) - 1))]
@@ -104,6 +108,8 @@ def tg_op_cases(draw):
         kind = draw(st.sampled_from(["validate", "save_str", "queries"]))  # pure queries on a textgrid validate() complains about
     elif spec["maxT"] > max(t["maxT"] for t in spec["tiers"]) and draw(st.booleans()):
         kind = draw(st.sampled_from(["replace", "rename", "add", "replace", "remove", "replace", "merge", "append"]))  # the textgrid's own span is at stake here
+    if len(spec["tiers"]) >= 2 and any(not t["entries"] and t["maxT"] > spec["tiers"][0]["maxT"] for t in spec["tiers"][1:]) and draw(st.booleans()):
+        kind = "merge"  # entry-less tiers with a longer span than the first: nothing to fuse, and nothing of the receiver to touch
     op = {"kind": kind}
     anyname = st.sampled_from(names + ["zz"])
     if kind in ("crop", "erase"):
